@@ -1,4 +1,5 @@
 import XmlRsModel.CharData
+import XmlRsModel.Lemmas.DomStep
 /-! Property C16: character-data operations work on character offsets with DOM Level 1 semantics.
     The executable model (`CharData.step`) is characterised here by the sentences of DOM Level 1
     (`substringData`, `insertData`, `deleteData`, `replaceData`, `splitText`): which characters
@@ -204,4 +205,58 @@ theorem step_length (s : Str) (op : Op) :
 
 example : insertData ['a', '𝒳'] 1 ['é'] = some ['a', 'é', '𝒳'] ∧
     deleteData ['a', 'é', '𝒳'] 1 1 = some ['a', '𝒳'] := by decide
+-- splitText in the tree: where the second half goes (added 2026-09-23)
+section SplitPlace
+open XmlRs.Dom
+theorem insertBeforeL_at (x nx : Node) (a r : List Node) (h : ∀ m ∈ a, m.id ≠ nx.id) :
+    insertBeforeL x (some nx.id) (a ++ nx :: r) = a ++ x :: nx :: r := by
+  induction a with
+  | nil => simp [insertBeforeL]
+  | cons m a ih =>
+    have hm : (m.id == nx.id) = false := by simpa using h m (by simp)
+    simp only [List.cons_append, insertBeforeL, hm]
+    rw [ih (fun m' hm' => h m' (by simp [hm']))]; rfl
+
+theorem dropWhile_ne_at (n : Nat) (nd : Node) (pre post : List Node) (hid : nd.id = n)
+    (h : ∀ m ∈ pre, m.id ≠ n) :
+    (pre ++ nd :: post).dropWhile (·.id != n) = nd :: post := by
+  induction pre with
+  | nil => simp [hid]
+  | cons m a ih =>
+    have hm : (m.id != n) = true := by simpa using h m (by simp)
+    simp only [List.cons_append, List.dropWhile, hm]
+    exact ih (fun m' hm' => h m' (by simp [hm']))
+
+/-- splitText leaves TWO ADJACENT SIBLINGS: whenever the children of the parent carry pairwise distinct
+    identities (C12's invariant), the new node is placed immediately after the split node - not at the end of
+    the list, not before it - and every other child keeps its place -/
+theorem split_places_new_node_next (n : Nat) (new nd : Node) (pre post : List Node) (hid : nd.id = n)
+    (hn : ((pre ++ nd :: post).map (·.id)).Nodup) :
+    splitPlace n new (pre ++ nd :: post) = pre ++ nd :: new :: post := by
+  have hn' := hn
+  simp only [List.map_append, List.map_cons, List.nodup_append, List.nodup_cons, List.mem_map,
+    List.mem_cons] at hn'
+  obtain ⟨_, ⟨hnd, hpost⟩, hdis⟩ := hn'
+  have hpre : ∀ m ∈ pre, m.id ≠ n := fun m hm e => by
+    have := hdis (m.id) ⟨m, hm, rfl⟩ nd.id (Or.inl rfl)
+    exact this (by rw [e, hid])
+  unfold splitPlace
+  rw [dropWhile_ne_at n nd pre post hid hpre]
+  cases post with
+  | nil => simp
+  | cons nx rest =>
+    simp only [List.drop_one, List.tail_cons]
+    have : pre ++ nd :: nx :: rest = (pre ++ [nd]) ++ nx :: rest := by simp
+    rw [this, insertBeforeL_at]
+    · simp
+    · intro m hm e
+      rcases List.mem_append.mp hm with hm | hm
+      · exact hdis m.id ⟨m, hm, rfl⟩ nx.id (Or.inr ⟨nx, List.mem_cons_self, rfl⟩) e
+      · simp only [List.mem_singleton] at hm; subst hm
+        exact hnd ⟨nx, List.mem_cons_self, e.symm⟩
+
+example : splitPlace 2 (.mk 9 .text ['b'] [] []) [.mk 1 .text [] [] [], .mk 2 .text ['a'] [] [], .mk 3 .comment [] [] []]
+    = [.mk 1 .text [] [] [], .mk 2 .text ['a'] [] [], .mk 9 .text ['b'] [] [], .mk 3 .comment [] [] []] := by rfl
+end SplitPlace
+
 end XmlRs.C16
